@@ -55,6 +55,33 @@ impl Part for OneHot {
         let mode = if c.compressed { Mode::Compressed } else { Mode::Uncompressed };
         let inst = image::one_hot(p, &mode, c.target.as_ref().map(|(p, k)| (p.as_str(), *k)));
         judge_inst(&inst, &mode, "c02")?;
+        // the layout must not depend on the sink either: the packet written directly (the public BinWrite entry point) into a
+        // sink that accepts 1 / 3,2 bytes per call gives the bytes the codec gives; a write that fails half-way leaves nothing
+        // behind that changes the next encoding
+        if let Ok(pkt) = decode_one(&inst.image, &mode) {
+            use insim_core::binrw::BinWrite;
+            if let Ok(reference) = encode_one(&pkt, &mode) {
+                for pattern in [&[1usize][..], &[3, 2]] {
+                    let mut sink = TrickleSink::new(pattern);
+                    let r = guard(|| pkt.write(&mut sink).map_err(|e| e.to_string())).map_err(|p| Fail::new(format!("c02:panic:{}", inst.variant), p))?;
+                    ensure!(
+                        r.is_ok() && sink.bytes() == &reference[1..],
+                        format!("c02:layout-depends-on-the-sink:{}", inst.variant),
+                        "{}: written into a sink accepting {pattern:?} bytes per call: {:?}, {} bytes {} (codec: {} bytes {})",
+                        inst.variant,
+                        r,
+                        sink.bytes().len(),
+                        hex(&sink.bytes()[..sink.bytes().len().min(24)]),
+                        reference.len() - 1,
+                        hex(&reference[1..reference.len().min(25)])
+                    );
+                }
+                let mut full = TrickleSink::failing_after(reference.len() / 2);
+                let _ = guard(|| pkt.write(&mut full).map_err(|e| e.to_string()));
+                let again = encode_one(&pkt, &mode).map_err(|e| Fail::new(format!("c02:encode-refused:{}", inst.variant), e))?;
+                ensure!(again == reference, format!("c02:layout-depends-on-the-sink:{}", inst.variant), "{}: after a write that failed half-way the packet encodes to {} instead of {}", inst.variant, hex(&again[..again.len().min(32)]), hex(&reference[..reference.len().min(32)]));
+            }
+        }
         if inst.image[3..].iter().any(|b| *b != 0) {
             ev.nontrivial_distinct();
         }
